@@ -262,32 +262,59 @@ func (c *Ctx) checkDeletionLog() {
 	r.Floor("C04.3-deletion-log", 2)
 	for _, fn := range c.funcsCalling(getDel, "server/store") {
 		r.Func(fk(fn))
-		var norm, srt ssa.Instruction
-		core.AllInstrs(fn, func(in ssa.Instruction) {
-			if call, ok := in.(*ssa.Call); ok {
-				if core.CalleeOf(&call.Call) == normalize {
-					norm = in
+		find := func(g *ssa.Function) (norm, srt ssa.Instruction) {
+			core.AllInstrs(g, func(in ssa.Instruction) {
+				if call, ok := in.(*ssa.Call); ok {
+					if core.CalleeOf(&call.Call) == normalize {
+						norm = in
+					}
+					if calleeFullName(call) == "sort.Sort" {
+						srt = in
+					}
 				}
-				if calleeFullName(call) == "sort.Sort" {
-					srt = in
+			})
+			return
+		}
+		owner := fn
+		norm, srt := find(fn)
+		var via ssa.Value // the call of the helper that sorts and normalises, when there is one
+		if norm == nil || srt == nil {
+			core.AllInstrs(fn, func(in ssa.Instruction) {
+				call, ok := in.(*ssa.Call)
+				if !ok || via != nil {
+					return
 				}
-			}
-		})
+				if g := call.Call.StaticCallee(); g != nil && core.InModule(g) && len(g.Blocks) > 0 {
+					if n2, s2 := find(g); n2 != nil && s2 != nil {
+						owner, norm, srt, via = g, n2, s2, call
+					}
+				}
+			})
+		}
 		if norm == nil || srt == nil {
 			r.Fail("C04.3-deletion-log", fk(fn)+": log ranges sorted and normalised", c.P.Pos(fn.Pos()), "the deletion log is no longer sorted and normalised before it is reported")
 			continue
 		}
-		unsorted, _ := core.PathAvoiding(fn, nil, func(in ssa.Instruction) bool { return in == norm }, func(in ssa.Instruction) bool { return in == srt }, nil)
+		unsorted, _ := core.PathAvoiding(owner, nil, func(in ssa.Instruction) bool { return in == norm }, func(in ssa.Instruction) bool { return in == srt }, nil)
 		r.Check(!unsorted, "C04.3-deletion-log", fk(fn)+": sorted before normalising", c.pos(norm), "", "the deletion log is normalised in transaction order and sorted only afterwards: earlier ranges swallow later entries and ids disappear from the reported log")
 		// the returned ranges derive from Normalize's result
 		okRet := false
-		core.AllInstrs(fn, func(in ssa.Instruction) {
-			if ret, ok := in.(*ssa.Return); ok && !core.IsNil(ret.Results[0]) {
-				if core.Derives(ret.Results[0], func(v ssa.Value) bool { return v == norm.(ssa.Value) }, false) {
-					okRet = true
+		returnsFrom := func(g *ssa.Function, src ssa.Value) bool {
+			got := false
+			core.AllInstrs(g, func(in ssa.Instruction) {
+				if ret, ok := in.(*ssa.Return); ok && len(ret.Results) > 0 && !core.IsNil(ret.Results[0]) {
+					if core.Derives(ret.Results[0], func(v ssa.Value) bool { return v == src }, false) {
+						got = true
+					}
 				}
-			}
-		})
+			})
+			return got
+		}
+		if via == nil {
+			okRet = returnsFrom(fn, norm.(ssa.Value))
+		} else {
+			okRet = returnsFrom(owner, norm.(ssa.Value)) && returnsFrom(fn, via)
+		}
 		r.Check(okRet, "C04.3-deletion-log", fk(fn)+": returns the normalised ranges", c.pos(norm), "", "the function does not return the normalised ranges")
 	}
 }
